@@ -14,12 +14,16 @@ Definition hdrs_eqb : hdrs -> hdrs -> bool := list_eqb hdr_eqb.
 Definition res_eqb (a b : option (Z * hdrs)) : bool :=
   opt_eqb (fun x y => (fst x =? fst y) && hdrs_eqb (snd x) (snd y)) a b.
 
-Definition rw_eqb (a b : rwriter) : bool :=
-  hdrs_eqb (rlive a) (rlive b) && res_eqb (rres a) (rres b) && zs_eqb (rbody a) (rbody b).
+Definition infos_eqb : list (Z * hdrs) -> list (Z * hdrs) -> bool :=
+  list_eqb (fun x y => (fst x =? fst y) && hdrs_eqb (snd x) (snd y)).
 
-(* what the client sees: status line + frozen headers + body *)
-Definition view_eqb (a b : rwriter) : bool :=
-  res_eqb (rres a) (rres b) && zs_eqb (rbody a) (rbody b).
+Definition rw_eqb (a b : rwriter) : bool :=
+  Bool.eqb (rfl a) (rfl b) && hdrs_eqb (rlive a) (rlive b) && res_eqb (rres a) (rres b) &&
+  zs_eqb (rbody a) (rbody b) && infos_eqb (rinfo a) (rinfo b).
+
+(* what the client sees: 1xx responses, status line + frozen headers, body *)
+Definition view_eqb (a b : view) : bool :=
+  infos_eqb (fst (fst a)) (fst (fst b)) && res_eqb (snd (fst a)) (snd (fst b)) && zs_eqb (snd a) (snd b).
 
 Definition pval_eqb (a b : pval) : bool :=
   match a, b with
@@ -50,6 +54,7 @@ Inductive sres := SoWait | SoRet | SoPanic (p : option pval).
 
 Record rest_case := mkRest
   { (* input *)
+    rc_fl : bool;                (* the real writer is an http.Flusher *)
     rc_h0 : hdrs; rc_script : list act; rc_dur : Z; rc_rq : reqkind;
     rc_parent : option Z;        (* caller's deadline (ns from the start), if any *)
     rc_dmode : option kind;      (* the Done event the controller produced, if any *)
@@ -60,17 +65,20 @@ Record rest_case := mkRest
     rc_hobs : list ares; rc_sout : sres;
     rc_status : Z;               (* 0 = header never written *)
     rc_snap : hdrs; rc_live : hdrs; rc_body : list Z;
+    rc_infos : list (Z * hdrs);  (* 1xx responses the real writer sent *)
+    rc_flushes : Z;              (* Flush calls the real writer received *)
     rc_extra : Z;                (* header names outside the script's namespace *)
     rc_late : Z;                 (* real-writer calls after ServeHTTP returned *)
     rc_foreign : Z;              (* real-writer calls from another goroutine than ServeHTTP's *)
     rc_dl : option Z;            (* ctx.Deadline() seen by the handler *)
-    rc_t1 : Z;                   (* when the handler started; WithTimeout ran in [0, t1] *)
+    rc_t0 : Z;                   (* right before ServeHTTP was called *)
+    rc_t1 : Z;                   (* when the handler started; WithTimeout ran in [t0, t1] *)
     rc_retatd : Z }.             (* D forced while the handler was parked: did ServeHTTP return? -1 n/a *)
 
 Definition obs_rw (c : rest_case) : rwriter :=
-  mkRW (rc_live c)
+  mkRW (rc_fl c) (rc_live c)
        (if rc_status c =? 0 then None else Some (rc_status c, rc_snap c))
-       (rc_body c).
+       (rc_body c) (rc_infos c).
 
 Definition dl_agrees (lo hi seen : option Z) : bool :=
   match lo, hi, seen with
@@ -108,25 +116,34 @@ Definition sres_eqb (a b : sres) : bool :=
    under one of them. *)
 Definition rest_agrees_sched (c : rest_case) (sched : list ev) : bool :=
   if rc_wrapped c then
-    match run_strict (init (rc_h0 c) (rc_script c)) sched with
+    match run_strict (init (rc_fl c) (rc_h0 c) (rc_script c)) sched with
     | Some (s, obs) =>
       list_eqb ares_eqb obs (rc_hobs c) && rw_eqb (rw s) (obs_rw c) &&
       sres_eqb (sout_of_sst (sst s)) (rc_sout c)
     | None => false
     end
   else
-    match xrun_strict (xinit (rc_h0 c) (rc_script c)) sched with
+    match xrun_strict (xinit (rc_fl c) (rc_h0 c) (rc_script c)) sched with
     | Some (s, obs) =>
       list_eqb ares_eqb obs (rc_hobs c) && rw_eqb (xrw s) (obs_rw c) &&
       sres_eqb (sout_of_hst (xhst s)) (rc_sout c)
     | None => false
     end.
 
+(* the real writer is called from the serving goroutine only — except by the
+   handler's own Flush (three calls each: Header, Write, Flush; the first one also
+   WriteHeader when the recorded status is not 200) *)
+Definition foreign_ok (c : rest_case) : bool :=
+  if rc_wrapped c then
+    (3 * rc_flushes c <=? rc_foreign c) &&
+    (rc_foreign c <=? 3 * rc_flushes c + (if 0 <? rc_flushes c then 1 else 0))
+  else rc_foreign c =? 0.
+
 Definition rest_agrees (c : rest_case) : bool :=
   Bool.eqb (wrapped (rc_dur c) (rc_rq c)) (rc_wrapped c) &&
-  dl_agrees (rest_deadline (rc_dur c) (rc_rq c) (rc_parent c) 0)
+  dl_agrees (rest_deadline (rc_dur c) (rc_rq c) (rc_parent c) (rc_t0 c))
             (rest_deadline (rc_dur c) (rc_rq c) (rc_parent c) (rc_t1 c)) (rc_dl c) &&
-  (rc_extra c =? 0) && (rc_late c =? 0) && (rc_foreign c =? 0) &&
+  (rc_extra c =? 0) && (rc_late c =? 0) && foreign_ok c &&
   existsb (rest_agrees_sched c) (rc_sched c :: rc_alts c).
 
 (* --- the property on the observed response ------------------------- *)
@@ -144,31 +161,71 @@ Definition candidates (c : rest_case) : list (list act) :=
   rc_script c ::
   match rc_dmode c with Some _ => check_prefixes [] (rc_script c) | None => [] end.
 
+Definition obs_view (c : rest_case) : view := rw_view (obs_rw c).
+
+(* "the work's complete result": the independent description [spec_view] of one of
+   the runs the handler can choose *)
 Definition is_complete (c : rest_case) : bool :=
   existsb (fun acts =>
-             match spec_panic false acts with
-             | None => view_eqb (obs_rw c) (spec_complete (rc_h0 c) acts)
+             match spec_panic (rc_fl c) false acts with
+             | None => view_eqb (obs_view c) (spec_view (rc_fl c) (rc_h0 c) acts)
              | Some _ => false
              end) (candidates c).
 
-(* handler bytes are >= 128 in generated scripts, so "no handler byte" is decidable *)
+(* what the handler's own Flush calls had passed to the client when it had executed
+   [pre]: nothing, unless it flushed through a Flusher-capable writer; then status and
+   headers of its first Flush and the chunks written before its last Flush *)
+Fixpoint upto_last_flush (acts : list act) : list act :=
+  match acts with
+  | [] => []
+  | a :: r => if has_flush (a :: r) then a :: upto_last_flush r else []
+  end.
+
+Definition spec_committed (fl : bool) (h0 : hdrs) (pre : list act) : view :=
+  if fl && has_flush pre then
+    let v := spec_view fl h0 pre in
+    (fst (fst v), snd (fst v), spec_body (upto_last_flush pre))
+  else ([], None, []).
+
+Fixpoint prefixes {A} (l : list A) : list (list A) :=
+  match l with
+  | [] => [[]]
+  | x :: r => [] :: map (cons x) (prefixes r)
+  end.
+
+(* "the timeout result": 503 / 499 by the kind of the Done event, the writer's own
+   headers, the fixed body, no 1xx response, nothing after it — on top of what the
+   handler had flushed itself before (nothing, for scripts without Flush) *)
+Definition timeout_view (fl : bool) (h0 : hdrs) (k : kind) (pre : list act) : view :=
+  match spec_committed fl h0 pre with
+  | (infos, Some x, body) => (infos, Some x, body ++ reason)
+  | (infos, None, body) => (infos, Some (timeout_code k, h0), body ++ reason)
+  end.
+
 Definition is_timeout (c : rest_case) : bool :=
   match rc_dmode c with
   | Some k =>
-    (rc_status c =? timeout_code k) && hdrs_eqb (rc_snap c) (rc_h0 c) &&
-    forallb (fun b => b <? 128) (rc_body c)
+    if rc_fl c && has_flush (rc_script c) then
+      existsb (fun pre =>
+                 match spec_panic (rc_fl c) false pre with
+                 | None => negb (info_first (rc_fl c) pre) &&
+                           view_eqb (obs_view c) (timeout_view (rc_fl c) (rc_h0 c) k pre)
+                 | Some _ => false
+                 end) (prefixes (rc_script c))
+    else view_eqb (obs_view c) ([], Some (timeout_code k, rc_h0 c), reason)
   | None => false
   end.
 
 Definition untouched (c : rest_case) : bool :=
-  (rc_status c =? 0) && zs_eqb (rc_body c) [].
+  if rc_fl c && has_flush (rc_script c) then true     (* the flushed prefix is out: see is_timeout *)
+  else (rc_status c =? 0) && zs_eqb (rc_body c) [] && infos_eqb (rc_infos c) [].
 
 Definition all_or_nothing_ok (c : rest_case) : bool :=
   match rc_sout c with
   | SoWait => false                          (* ServeHTTP must return once the handler has *)
   | SoRet => is_complete c || is_timeout c
   | SoPanic (Some p) =>
-    untouched c && opt_eqb pval_eqb (spec_panic false (rc_script c)) (Some p)
+    untouched c && opt_eqb pval_eqb (spec_panic (rc_fl c) false (rc_script c)) (Some p)
   | SoPanic None => false
   end.
 
@@ -198,6 +255,15 @@ Definition deadline_ok (dur : Z) (parent seen : option Z) (t1 : Z) : bool :=
   | None => false
   end.
 
+(* an exempt request is not cut: when its handler has returned, everything it wrote
+   (directly, to the real writer) is the response *)
+Definition exempt_not_cut (c : rest_case) : bool :=
+  match rc_sout c with
+  | SoRet =>
+    existsb (fun acts => view_eqb (obs_view c) (rw_view (direct (rc_fl c) (rc_h0 c) acts))) (candidates c)
+  | _ => true
+  end.
+
 Definition rest_prop_ok (c : rest_case) : bool :=
   if wrapped (rc_dur c) (rc_rq c) then
     all_or_nothing_ok c && nothing_after_timeout_ok c &&
@@ -206,8 +272,8 @@ Definition rest_prop_ok (c : rest_case) : bool :=
   else
     (* exempt: the handler runs unwrapped, under the caller's own context *)
     match rc_rq c with
-    | RqPlain => true      (* TimeoutHandler(d <= 0): no timeout configured *)
-    | _ => negb (rc_wrapped c) && opt_eqb Z.eqb (rc_dl c) (rc_parent c)
+    | RqPlain => true      (* TimeoutHandler(d <= 0) / no timeout middleware: no timeout configured *)
+    | _ => negb (rc_wrapped c) && opt_eqb Z.eqb (rc_dl c) (rc_parent c) && exempt_not_cut c
     end.
 
 (* ------------------------------------------------------------------ *)
@@ -289,40 +355,20 @@ Definition client_prop_ok (c : client_case) : bool :=
   (cc_err c =? cc_inv_err c).
 
 (* ------------------------------------------------------------------ *)
-(* rest engine: which timeout a route gets                              *)
-
-Record engine_case := mkEngine
-  { ec_route_ns : Z; ec_conf_ms : Z; ec_parent : option Z;
-    ec_dl : option Z; ec_t1 : Z }.
-
-Definition engine_agrees (c : engine_case) : bool :=
-  let d := checked_timeout (ec_route_ns c) (ec_conf_ms c) in
-  dl_agrees (rest_deadline d RqPlain (ec_parent c) 0)
-            (rest_deadline d RqPlain (ec_parent c) (ec_t1 c)) (ec_dl c).
-
-Definition engine_prop_ok (c : engine_case) : bool :=
-  let d := checked_timeout (ec_route_ns c) (ec_conf_ms c) in
-  if 0 <? d then deadline_ok d (ec_parent c) (ec_dl c) (ec_t1 c) else true.
-
-(* ------------------------------------------------------------------ *)
-(* sequences: several requests through ONE TimeoutHandler instance; a handler
-   abandoned at its timeout goes on acting while later requests are served *)
+(* sequences: several requests through ONE TimeoutHandler instance, or through ONE
+   rest.Server with several routes; a handler abandoned at its timeout goes on acting
+   while later requests are served *)
 
 Record seq_req := mkSR
-  { sr_h0 : hdrs; sr_script : list act; sr_dmode : option kind;
+  { sr_fl : bool; sr_h0 : hdrs; sr_script : list act; sr_dmode : option kind;
+    sr_hdrs : list (bstr * bstr);      (* request headers *)
+    sr_parent : option Z;
+    sr_group : nat;                    (* server cases: the route group *)
     (* observed, per request *)
     sr_sout : sres; sr_status : Z; sr_snap : hdrs; sr_live : hdrs; sr_body : list Z;
-    sr_extra : Z; sr_late : Z; sr_foreign : Z }.
-
-Record seq_case := mkSeq
-  { sq_dur : Z;
-    sq_reqs : list seq_req;
-    sq_sched : list (nat * ev);        (* the executor forces it completely *)
-    sq_hobs : list (nat * ares);       (* what each handler action reported, in schedule order *)
-    sq_retatd : Z }.
-
-Definition sr_rw (r : seq_req) : rwriter :=
-  mkRW (sr_live r) (if sr_status r =? 0 then None else Some (sr_status r, sr_snap r)) (sr_body r).
+    sr_infos : list (Z * hdrs); sr_flushes : Z;
+    sr_extra : Z; sr_late : Z; sr_foreign : Z;
+    sr_wrapped : bool; sr_dl : option Z; sr_t0 : Z; sr_t1 : Z }.
 
 Definition iares_eqb (a b : nat * ares) : bool := Nat.eqb (fst a) (fst b) && ares_eqb (snd a) (snd b).
 
@@ -333,37 +379,97 @@ Fixpoint zip_all {A B} (f : A -> B -> bool) (l1 : list A) (l2 : list B) : bool :
   | _, _ => false
   end.
 
-Definition seq_agrees (c : seq_case) : bool :=
-  match mrun_strict (minit (map (fun r => (sr_h0 r, sr_script r)) (sq_reqs c))) (sq_sched c) with
-  | Some (ss, obs) =>
-    list_eqb iares_eqb obs (sq_hobs c) &&
-    zip_all (fun s r => rw_eqb (rw s) (sr_rw r) && sres_eqb (sout_of_sst (sst s)) (sr_sout r) &&
-                        (sr_extra r =? 0) && (sr_late r =? 0) && (sr_foreign r =? 0))
-            ss (sq_reqs c)
-  | None => false
-  end.
-
-(* request i seen as a single-request case: its own script, its own events, its own
-   observations — everything the other requests did is simply absent *)
-Definition seq_as_rest (c : seq_case) (i : nat) (r : seq_req) : rest_case :=
-  mkRest (sr_h0 r) (sr_script r) (sq_dur c) RqPlain None (sr_dmode r)
-         true (proj i (sq_sched c)) []
-         (map snd (filter (fun o => Nat.eqb (fst o) i) (sq_hobs c)))
-         (sr_sout r) (sr_status r) (sr_snap r) (sr_live r) (sr_body r)
-         (sr_extra r) (sr_late r) (sr_foreign r) None 0 (-1).
-
 Fixpoint forall_idx {A} (f : nat -> A -> bool) (i : nat) (l : list A) : bool :=
   match l with
   | [] => true
   | x :: r => f i x && forall_idx f (S i) r
   end.
 
+(* request i seen as a single-request case: its own script, its own events, its own
+   observations — everything the other requests did is simply absent.  [dur] and
+   [script] are what the configuration gives this request. *)
+Definition seq_as_rest (dur : Z) (script : list act) (sched : list (nat * ev)) (hobs : list (nat * ares))
+           (i : nat) (r : seq_req) : rest_case :=
+  mkRest (sr_fl r) (sr_h0 r) script dur (classify (sr_hdrs r)) (sr_parent r) (sr_dmode r)
+         (sr_wrapped r) (proj i sched) []
+         (map snd (filter (fun o => Nat.eqb (fst o) i) hobs))
+         (sr_sout r) (sr_status r) (sr_snap r) (sr_live r) (sr_body r) (sr_infos r) (sr_flushes r)
+         (sr_extra r) (sr_late r) (sr_foreign r) (sr_dl r) (sr_t0 r) (sr_t1 r) (-1).
+
+Definition comp_sout (c : comp) : sres :=
+  match c with CW s => sout_of_sst (sst s) | CX s => sout_of_hst (xhst s) end.
+
+(* [conf r] = (timeout handed to TimeoutHandler for r's route, the route's handler script) *)
+Definition gseq_agrees (conf : seq_req -> Z * list act) (reqs : list seq_req)
+           (sched : list (nat * ev)) (hobs : list (nat * ares)) : bool :=
+  let wrap r := wrapped (fst (conf r)) (classify (sr_hdrs r)) in
+  let comps := map (fun r => cinit (wrap r) (mkReq (sr_fl r) (sr_h0 r) (snd (conf r)))) reqs in
+  match cmrun_strict comps sched with
+  | Some (cs, obs) =>
+    list_eqb iares_eqb obs hobs &&
+    forall_idx (fun i cr =>
+                  let c := fst cr in let r := snd cr in
+                  let rc := seq_as_rest (fst (conf r)) (snd (conf r)) sched hobs i r in
+                  rw_eqb (comp_rw c) (obs_rw rc) && sres_eqb (comp_sout c) (sr_sout r) &&
+                  Bool.eqb (wrap r) (sr_wrapped r) &&
+                  dl_agrees (rest_deadline (rc_dur rc) (rc_rq rc) (rc_parent rc) (rc_t0 rc))
+                            (rest_deadline (rc_dur rc) (rc_rq rc) (rc_parent rc) (rc_t1 rc)) (rc_dl rc) &&
+                  (sr_extra r =? 0) && (sr_late r =? 0) && foreign_ok rc)
+               O (combine cs reqs) &&
+    Nat.eqb (length cs) (length reqs)
+  | None => false
+  end.
+
+(* every request, seen through its own events only, is judged like a single request *)
+Definition gseq_prop_ok (conf : seq_req -> Z * list act) (reqs : list seq_req)
+           (sched : list (nat * ev)) (hobs : list (nat * ares)) : bool :=
+  forall_idx (fun i r => rest_prop_ok (seq_as_rest (fst (conf r)) (snd (conf r)) sched hobs i r)) O reqs.
+
+Record seq_case := mkSeq
+  { sq_dur : Z;
+    sq_reqs : list seq_req;
+    sq_sched : list (nat * ev);        (* the executor forces it completely *)
+    sq_hobs : list (nat * ares);       (* what each handler action reported, in schedule order *)
+    sq_retatd : Z }.
+
+Definition seq_conf (c : seq_case) (r : seq_req) : Z * list act := (sq_dur c, sr_script r).
+
+Definition seq_agrees (c : seq_case) : bool :=
+  gseq_agrees (seq_conf c) (sq_reqs c) (sq_sched c) (sq_hobs c).
+
 Definition seq_prop_ok (c : seq_case) : bool :=
-  forall_idx (fun i r =>
-                let rc := seq_as_rest c i r in
-                all_or_nothing_ok rc && nothing_after_timeout_ok rc)
-             O (sq_reqs c) &&
-  negb (sq_retatd c =? 0).
+  gseq_prop_ok (seq_conf c) (sq_reqs c) (sq_sched c) (sq_hobs c) && negb (sq_retatd c =? 0).
+
+(* ------------------------------------------------------------------ *)
+(* a real rest.Server: route groups with options, several requests to its routes *)
+
+Record srv_case := mkSrv
+  { sv_conf_ms : Z; sv_mw : bool;
+    sv_groups : list (list ropt);
+    sv_reqs : list seq_req;
+    sv_sched : list (nat * ev);
+    sv_hobs : list (nat * ares);
+    sv_retatd : Z;
+    (* observed: http.Server.ReadTimeout / WriteTimeout after withTimeout(), ng.timeout *)
+    sv_read : Z; sv_write : Z; sv_eng : Z }.
+
+Definition sv_fr (c : srv_case) (r : seq_req) : froutes :=
+  route_conf (nth (sr_group r) (sv_groups c) []).
+
+Definition srv_conf (c : srv_case) (r : seq_req) : Z * list act :=
+  (eng_route_dur (sv_mw c) (sv_conf_ms c) (sv_fr c r), route_script (sv_fr c r) (sr_script r)).
+
+Definition srv_agrees (c : srv_case) : bool :=
+  let t := eng_timeout (sv_conf_ms c) (map route_conf (sv_groups c)) in
+  (sv_eng c =? t) && (sv_read c =? srv_read_timeout t) && (sv_write c =? srv_write_timeout t) &&
+  forallb (fun r => Nat.ltb (sr_group r) (length (sv_groups c))) (sv_reqs c) &&
+  gseq_agrees (srv_conf c) (sv_reqs c) (sv_sched c) (sv_hobs c).
+
+(* per route: deadline = min(caller's, now + chosen timeout), all-or-nothing, nothing
+   after the timeout; header-exempt requests are not wrapped, keep the caller's
+   deadline and are not cut; no timeout configured: nothing demanded *)
+Definition srv_prop_ok (c : srv_case) : bool :=
+  gseq_prop_ok (srv_conf c) (sv_reqs c) (sv_sched c) (sv_hobs c) && negb (sv_retatd c =? 0).
 
 (* ------------------------------------------------------------------ *)
 (* sequences of calls through ONE interceptor instance (fam 0) / fx (fam 1) *)
@@ -411,8 +517,8 @@ Inductive case :=
 | CRest (c : rest_case)
 | CSlot (c : slot_case)
 | CClient (c : client_case)
-| CEngine (c : engine_case)
 | CSeq (c : seq_case)
+| CSrv (c : srv_case)
 | CSSeq (c : sseq_case).
 
 Definition agrees (c : case) : bool :=
@@ -420,8 +526,8 @@ Definition agrees (c : case) : bool :=
   | CRest c => rest_agrees c
   | CSlot c => slot_agrees c
   | CClient c => client_agrees c
-  | CEngine c => engine_agrees c
   | CSeq c => seq_agrees c
+  | CSrv c => srv_agrees c
   | CSSeq c => sseq_agrees c
   end.
 
@@ -430,8 +536,8 @@ Definition prop_ok (c : case) : bool :=
   | CRest c => rest_prop_ok c
   | CSlot c => slot_prop_ok c
   | CClient c => client_prop_ok c
-  | CEngine c => engine_prop_ok c
   | CSeq c => seq_prop_ok c
+  | CSrv c => srv_prop_ok c
   | CSSeq c => sseq_prop_ok c
   end.
 
@@ -440,12 +546,12 @@ Definition model_obs (c : case) :=
   match c with
   | CRest c =>
     if rc_wrapped c then
-      match run_strict (init (rc_h0 c) (rc_script c)) (rc_sched c) with
+      match run_strict (init (rc_fl c) (rc_h0 c) (rc_script c)) (rc_sched c) with
       | Some (s, obs) => Some (rw s, obs)
       | None => None
       end
     else
-      match xrun_strict (xinit (rc_h0 c) (rc_script c)) (rc_sched c) with
+      match xrun_strict (xinit (rc_fl c) (rc_h0 c) (rc_script c)) (rc_sched c) with
       | Some (s, obs) => Some (xrw s, obs)
       | None => None
       end
